@@ -152,9 +152,115 @@ def run_units(jobs, nproc=None):
                 shutil.rmtree(os.path.join(cdir, d), ignore_errors=True)
     if nproc <= 1 or len(jobs) <= 1:
         return [_run_cached(j) for j in jobs]
+    return _run_pool(jobs, min(nproc, len(jobs)))
+
+
+WORKER_MEM_BYTES = int(float(os.environ.get("PYVC_WORKER_GB", "6")) * 2**30)
+
+
+def _worker(conn, jobs):
+    """one worker process: receives job indices, sends (index, UnitResult).  An address-space limit turns a runaway
+    exploration into a MemoryError / a dead worker (both reported as a checker error for that unit), never into a hang"""
+    try:
+        import resource
+
+        resource.setrlimit(resource.RLIMIT_AS, (WORKER_MEM_BYTES, WORKER_MEM_BYTES))
+    except Exception:
+        pass
+    while True:
+        try:
+            i = conn.recv()
+        except EOFError:
+            return
+        if i is None:
+            return
+        try:
+            u = _run_cached(jobs[i])
+        except BaseException:
+            fn, args = jobs[i]
+            u = UnitResult(getattr(fn, "__name__", "unit") + repr(args)[:60])
+            u.error = traceback.format_exc()
+        try:
+            conn.send((i, u))
+        except Exception:
+            fn, args = jobs[i]
+            e = UnitResult(getattr(fn, "__name__", "unit") + repr(args)[:60])
+            e.error = "result of the unit could not be sent to the parent: " + traceback.format_exc()
+            conn.send((i, e))
+
+
+def _run_pool(jobs, nproc):
+    """own process pool (fork): a worker that dies (killed, out of memory, crash in a solver library) or exceeds the hard
+    wall-clock limit costs exactly its unit, which is reported as a checker error; the run always terminates"""
+    from multiprocessing.connection import wait
+
     ctx = mp.get_context("fork")
-    with ctx.Pool(min(nproc, len(jobs))) as pool:
-        return pool.map(_run_cached, jobs, chunksize=1)
+    hard_limit = UNIT_BUDGET[0] * 2 + 120
+    results = [None] * len(jobs)
+    todo = list(range(len(jobs)))[::-1]
+    workers = {}  # conn -> [process, job index | None, start time]
+
+    def spawn():
+        a, b = ctx.Pipe()
+        p = ctx.Process(target=_worker, args=(b, jobs), daemon=True)
+        p.start()
+        b.close()
+        workers[a] = [p, None, 0.0]
+        return a
+
+    def lost(i, why):
+        fn, args = jobs[i]
+        u = UnitResult(getattr(fn, "__name__", "unit") + repr(args)[:60])
+        u.error = why
+        results[i] = u
+
+    def give(conn):
+        if todo:
+            i = todo.pop()
+            workers[conn][1] = i
+            workers[conn][2] = time.time()
+            conn.send(i)
+        else:
+            try:
+                conn.send(None)
+            except Exception:
+                pass
+            workers.pop(conn)[0].join(5)
+            conn.close()
+
+    for _ in range(nproc):
+        give(spawn())
+    while workers:
+        ready = wait(list(workers), timeout=5)
+        now = time.time()
+        for conn in ready:
+            p, i, t0 = workers[conn]
+            try:
+                j, u = conn.recv()
+                results[j] = u
+                give(conn)
+            except (EOFError, OSError):
+                # the worker died while running job i
+                p.join(5)
+                workers.pop(conn)
+                conn.close()
+                if i is not None and results[i] is None:
+                    lost(i, f"worker process died while running the unit (exit code {p.exitcode}); the unit is undecided")
+                if todo:
+                    give(spawn())
+        for conn, (p, i, t0) in list(workers.items()):
+            if i is not None and results[i] is None and now - t0 > hard_limit and conn not in ready:
+                p.kill()
+                p.join(5)
+                workers.pop(conn)
+                conn.close()
+                lost(i, f"unit exceeded the hard wall-clock limit of {hard_limit:.0f}s and was killed; the unit is undecided")
+                if todo:
+                    give(spawn())
+    for i, r in enumerate(results):
+        if r is None:
+            lost(i, "unit was never run (pool ended early)")
+    return results
 
 
 def load_known_findings():
